@@ -133,6 +133,21 @@ func schedFamilies(thorough bool, accepted []hsCase, follow []wmsg) []family {
 	return []family{f1, f2}
 }
 
+func shapeSizes() []int {
+	var out []int
+	for _, sh := range shapes {
+		out = append(out, sh.n)
+	}
+	return out
+}
+
+func schedStarts(thorough bool) []string {
+	if thorough {
+		return []string{"agent holds piece 0", "agent holds no piece", "origin holds the blob"}
+	}
+	return []string{"agent holds piece 0", "origin holds the blob"}
+}
+
 func shapeOf(n int) *shape {
 	for _, sh := range shapes {
 		if sh.n == n {
@@ -470,9 +485,22 @@ func (c *child) runSched(tc tcase) {
 	for _, m := range tc.Msgs {
 		out = append(out, frame(m)...)
 	}
-	out = append(out, pieceRequestFrame(barrierIndex, 1, 1)...)
+	// A follow-up that declares more payload bytes than it carries leaves the
+	// victim's read loop waiting for the rest: no barrier can follow it. The
+	// hostile peer closes its sending side instead and the connection must end.
+	starved := false
+	for _, m := range tc.Msgs {
+		starved = starved || underfilled(m, sh)
+	}
+	if !starved {
+		out = append(out, pieceRequestFrame(barrierIndex, 1, 1)...)
+	}
 	writeAll(aconn, out) // an error only means the victim has already closed
 	state := "ended"
+	if starved {
+		aconn.(*net.TCPConn).CloseWrite()
+		state = "ended after the hostile peer stopped sending"
+	}
 	var replies []sendRec
 	for {
 		m, payload, err := readFrame(aconn)
@@ -618,6 +646,17 @@ func (c *child) runSched(tc tcase) {
 	sort.Strings(replyTypes)
 	c.key(fmt.Sprintf("%s|%s|%s|n=%d|origin=%v|%s|%s|%v|%s|replies=%v", tc.Family, kind, tc.Dir, sh.n, tc.PeerOrigin, tc.Start,
 		tc.Kind, mt, state, uniq(replyTypes)))
+}
+
+// underfilled: a PIECE_PAYLOAD whose declared length is acceptable to the victim
+// but larger than the number of bytes that follow.
+func underfilled(m wmsg, sh *shape) bool {
+	pm := new(p2p.Message)
+	if err := proto.Unmarshal(m.Body, pm); err != nil || pm.Type != p2p.Message_PIECE_PAYLOAD || pm.PiecePayload == nil {
+		return false
+	}
+	l := pm.PiecePayload.Length
+	return l > 0 && l <= sh.pieceLen && int(l) > len(m.Payload)
 }
 
 // honestFetch: the honest peer requests piece i and must be sent its bytes.
